@@ -340,8 +340,8 @@ CheckEv(o, e) ==
     [] e.ev = "quiesce" -> ChkQuiesce(o, e, SetOf(e.active), SetOf(e.disk)) \cup (IF o.timersFired /\ ~o.faults /\ e.up THEN ChkTimers(o) ELSE {})
     [] e.ev = "ret" -> ChkRet(o, e)
     [] e.ev = "upgrade" -> ChkUpgrade(o, e)
-    [] e.ev = "fault" -> {"C18|" \o (IF e.what = "hang" THEN "handler-never-returned" ELSE "handler-panicked") \o "|" \o e.in
-                            \o "|" \o o.step.kind \o "|" \o (IF o.step.kind = "raw" THEN "C21" ELSE "-")}
+    [] e.ev = "fault" -> {(IF o.step.kind = "raw" THEN "C21|junk-" ELSE IF o.step.a = "msg" THEN "C09|message-" ELSE "C18|") \o
+                          (IF e.what = "hang" THEN "handler-never-returned" ELSE "handler-panicked") \o "|" \o e.in \o "|" \o o.step.kind}
     [] e.ev = "end" -> ChkEnd(o, e)
     [] OTHER -> {}
 ===============================================================================
